@@ -265,8 +265,32 @@ def c17():
     }
 
 
+def c20():
+    import suite_monitor
+    return {
+        "props_file": "Props/C20.v",
+        "theorems": ["C20_reader_safe", "C20_monotone", "C20_final_value", "C20_inplace_refuted",
+                     "C20_nonvacuous"],
+        "model_files": ["Model/Monitor.v"],
+        "suites": [suite_monitor.suite_monitor],
+        "search": suite_monitor.search_c20,
+        "replay": suite_monitor.replay_c20,
+        "level": "proof",
+        "rule": "sample sequences (repeats, short and long decimal reprs, increasing and not); the real "
+                "monitor_rss_process runs in-process with every file operation intercepted and the real "
+                "get_peak_memory_gib called after EVERY operation; operation sequence and reader results "
+                "compared with Model/Monitor.v; non-trivial = distinct sequence with >= 2 distinct values",
+        "trusted": COMMON_TRUST + ["POSIX rename atomicity (os.replace) and 'an open file keeps its inode "
+                                   "content' — assumptions of the model", "float repr/parse round-trips",
+                                   "the daemon shares no memory with the clustering process (OS process model); "
+                                   "'monitoring on/off does not change outputs' is checked in the C15 CLI suite"],
+        "assumptions": ["reader steps exists/open/read are modelled as acting on the inode that exists at open time"],
+    }
+
+
 SPECS = {
     "C01": c01,
+    "C20": c20,
     "C04": c04,
     "C07": c07,
     "C17": c17,
